@@ -551,15 +551,16 @@ func (rule *RuleExpression) checkWorkflowCall(c *WorkflowCall) {
 		var ty ExprType = StringType{}
 		switch len(ts) {
 		case 0:
-			switch v {
-			case "null":
+			// Resolve the type of the scalar in the same way as YAML. A quoted scalar is never null nor bool
+			switch {
+			case isYAMLNumber(v):
+				ty = NumberType{}
+			case i.Value.Quoted:
+				// string
+			case v == "null" || v == "Null" || v == "NULL" || v == "~":
 				ty = NullType{}
-			case "true", "false":
+			case v == "true" || v == "True" || v == "TRUE" || v == "false" || v == "False" || v == "FALSE":
 				ty = BoolType{}
-			default:
-				if _, err := strconv.ParseFloat(v, 64); err == nil {
-					ty = NumberType{}
-				}
 			}
 		case 1:
 			if i.Value.IsExpressionAssigned() {
@@ -1129,10 +1130,34 @@ func (rule *RuleExpression) checkRawYAMLString(y *RawYAMLString) ExprType {
 	if s == "null" {
 		return NullType{}
 	}
-	if _, err := strconv.ParseFloat(s, 64); err == nil {
+	if isYAMLNumber(s) {
 		return NumberType{}
 	}
 	return StringType{}
+}
+
+// isYAMLNumber returns whether the plain scalar is an integer or a floating point number in YAML. Only checking it with
+// strconv.ParseFloat is not sufficient since the function also accepts "nan", "inf", "infinity" and hexadecimal floating
+// point numbers like "0x1p4". They are strings in YAML.
+func isYAMLNumber(s string) bool {
+	switch s {
+	case ".inf", ".Inf", ".INF", "+.inf", "+.Inf", "+.INF", "-.inf", "-.Inf", "-.INF", ".nan", ".NaN", ".NAN":
+		return true
+	}
+	s = strings.ReplaceAll(s, "_", "") // YAML allows _ as digits separator
+	if _, err := strconv.ParseInt(s, 0, 64); err == nil {
+		return true
+	}
+	if _, err := strconv.ParseUint(s, 0, 64); err == nil {
+		return true
+	}
+	for _, r := range s {
+		if (r < '0' || '9' < r) && !strings.ContainsRune("+-.eE", r) {
+			return false
+		}
+	}
+	_, err := strconv.ParseFloat(s, 64)
+	return err == nil
 }
 
 func convertExprLineColToPos(line, col, lineBase, colBase int) *Pos {
